@@ -74,7 +74,7 @@ def judge(scn, obs, world):
                 d = det()
                 if not shifted[0] and racing_fetch(
                         obs, a, atts[settled[again[0]][0]], att):
-                    d = {'race': 'fetch-overlaps-completion'}
+                    d = {'race': 'first-attempt-completes-before-write-returns'}
                 v.append({'clause': 'C03/reattempt-settled', 'detail': d,
                           'msg': 'message %d attempt #%d includes %s, settled '
                                  'by attempt #%d (%s); recipients %r' % (
@@ -98,32 +98,32 @@ def judge(scn, obs, world):
 
 
 def racing_fetch(obs, a, prev, att):
-    """True when the attempt `att` was dispatched from a storage fetch that
-    began before the queue had finished recording the outcome of `prev`
-    (known finding: a timetable entry fed by load()/wait() for a message whose
-    attempt is completing; Queue._dequeue cannot tell the fetched copy is
-    stale).  Pure function of the recorded history."""
-    if a['acc'] is None:
+    """True exactly for the recorded residual race: the storage announced the
+    message through wait() before write() had returned, the running queue
+    fetched and ran a first attempt (`prev`) inside that window, and
+    enqueue(), on getting the id back, started `att` from its in-memory
+    envelope (no storage fetch since `prev` began, attempt count 0).  Any
+    other re-attempt - in particular one dispatched from a fetch that
+    overlapped the recording of a previous outcome - is NOT this finding.
+    Pure function of the recorded history."""
+    if a['acc'] is None or att is a['attempts'][0]:
+        return False
+    if att['attempts_arg'] != 0:
         return False
     id = a['acc']['id']
     ops = [o for o in obs['store_ops'] if o['id'] is not None and
            hq_norm(o['id']) == id]
     gets = [o for o in ops if o['op'] == 'get' and o['s1'] is not None and
-            o['ok'] and o['s1'] < att['start_seq']]
-    g = max(gets, key=lambda o: o['s1']) if gets else None
-    if g is None or g['s1'] < prev['start_seq']:
-        # no fetch since the previous attempt began: dispatched by enqueue()
-        # itself, on write() returning after an earlier, dequeue-dispatched
-        # attempt had already run
-        return att['attempts_arg'] == 0 and att is not a['attempts'][0]
-    pend = prev['end_seq'] if prev['end_seq'] is not None else float('inf')
-    done = pend
-    for o in ops:
-        if o['op'] in ('remove', 'increment_attempts', 'set_timestamp',
-                       'set_recipients_delivered') and o['s0'] > pend \
-                and o['s0'] < att['start_seq']:
-            done = max(done, o['s1'] if o['s1'] is not None else float('inf'))
-    return g['s0'] < done
+            o['ok'] and o['s1'] < att['start_seq'] and
+            o['s1'] > prev['start_seq']]
+    if gets:
+        return False            # dispatched from a fetch, not by enqueue()
+    writes = [o for o in ops if o['op'] == 'write' and o['s1'] is not None]
+    if not writes:
+        return False
+    # the first attempt ran while write() had not yet returned
+    return writes[0]['s1'] > prev['start_seq'] and \
+        writes[0]['s1'] < att['start_seq']
 
 
 def hq_norm(id):
